@@ -157,6 +157,130 @@ def gen_tables(repo):
     return ''.join(out)
 
 
+def rx_of_pattern(pat):
+    """Python regex source -> Coq term of type Base.Rx.rx (fail-closed on anything but the constructs below)."""
+    import re._parser as sp
+    import re._constants as sc
+
+    def cls(items):
+        neg, ranges = False, []
+        for op, av in items:
+            if op is sc.NEGATE:
+                neg = True
+            elif op is sc.LITERAL:
+                ranges.append((av, av))
+            elif op is sc.RANGE:
+                ranges.append(av)
+            elif op is sc.CATEGORY and av is sc.CATEGORY_DIGIT:
+                ranges.append((48, 57))          # \d restricted to ASCII digits (DESIGN.md section 3)
+            else:
+                raise TranslatorError('character class item %s %s' % (op, av))
+        for a, b in ranges:
+            if a > 127 or b > 127:
+                raise TranslatorError('non-ASCII character class')
+        return 'RCls %s [%s]' % ('true' if neg else 'false', '; '.join('(%d, %d)' % r for r in ranges))
+
+    def seq(items):
+        terms = [one(op, av) for op, av in items]
+        if not terms:
+            return 'REps'
+        out = terms[-1]
+        for t in reversed(terms[:-1]):
+            out = 'RCat (%s) (%s)' % (t, out)
+        return out
+
+    def one(op, av):
+        if op is sc.LITERAL:
+            if av > 127:
+                raise TranslatorError('non-ASCII literal')
+            return 'RCls false [(%d, %d)]' % (av, av)
+        if op is sc.NOT_LITERAL:
+            return 'RCls true [(%d, %d)]' % (av, av)
+        if op is sc.IN:
+            return cls(av)
+        if op is sc.MAX_REPEAT:
+            lo, hi, sub = av
+            body = seq(sub)
+            if (lo, hi) == (0, 1):
+                return 'ROpt (%s)' % body
+            if lo == 0 and hi is sc.MAXREPEAT:
+                return 'RStar (%s)' % body
+            if lo == 1 and hi is sc.MAXREPEAT:
+                return 'RPlus (%s)' % body
+            raise TranslatorError('repeat {%s,%s}' % (lo, hi))
+        if op is sc.SUBPATTERN:
+            return seq(av[3])
+        if op is sc.BRANCH:
+            alts = [seq(a) for a in av[1]]
+            out = alts[-1]
+            for t in reversed(alts[:-1]):
+                out = 'RAlt (%s) (%s)' % (t, out)
+            return out
+        raise TranslatorError('regex construct %s outside the translated subset' % (op,))
+    return seq(list(sp.parse(pat)))
+
+
+def gen_route_lex(repo):
+    rel = 'clastic/route.py'
+    tree = parse(repo, rel)
+    ce = ConstEval(tree)
+    out = [HEADER % rel,
+           'From Coq Require Import List String.\nImport ListNotations.\n',
+           'From ClasticV Require Import Base.Rx.\nLocal Open Scope string_scope.\n\n']
+    arity, opt = ce.get('_OP_ARITY_MAP'), ce.get('_OP_OPTIONALITY_MAP')
+    for d in (arity, opt):
+        for k, v in d.items():
+            if not isinstance(k, str) or not isinstance(v, bool):
+                raise TranslatorError('operator table entry %r: %r' % (k, v))
+    cb = lambda b: 'true' if b else 'false'
+    out.append('Definition OP_ARITY : list (string * bool) := %s.\n'
+               % coq_list(['(%s, %s)' % (coq_str(k), cb(v)) for k, v in sorted(arity.items())]))
+    out.append('Definition OP_OPTIONALITY : list (string * bool) := %s.\n'
+               % coq_list(['(%s, %s)' % (coq_str(k), cb(v)) for k, v in sorted(opt.items())]))
+    # DEFAULT_CONVS = [(name, func, pattern)]: func is a Name node (int / float / unicode)
+    convs = module_assign(tree, 'DEFAULT_CONVS')
+    if not isinstance(convs, ast.List):
+        raise TranslatorError('DEFAULT_CONVS is not a list display')
+    rows = []
+    for e in convs.elts:
+        if not (isinstance(e, ast.Tuple) and len(e.elts) == 3 and isinstance(e.elts[1], ast.Name)):
+            raise TranslatorError('DEFAULT_CONVS entry shape')
+        name = ce.ev(e.elts[0])
+        func = e.elts[1].id
+        kind = {'int': 'KInt', 'float': 'KFloat', 'unicode': 'KStr', 'str': 'KStr'}.get(func)
+        if kind is None:
+            raise TranslatorError('converter function %s' % func)
+        pat = ce.ev(e.elts[2])
+        rows.append('(%s, %s, %s)' % (coq_str(name), kind, rx_of_pattern(pat)))
+    out.append('Inductive tykind := KInt | KFloat | KStr.\n')
+    out.append('Definition TYPE_TABLE : list (string * tykind * rx) :=\n  %s.\n' % coq_list(rows).replace('; (', ';\n   ('))
+    out.append('Definition SEG_TMPL : string := %s.\n' % coq_str(ce.get('_SEG_TMPL')))
+    out.append('Definition SLASH_MODES : list string := %s.\n'
+               % names_list([ce.get('S_REDIRECT'), ce.get('S_REWRITE'), ce.get('S_STRICT')]))
+    # string constants of _compile_path_pattern that are regex pieces (not error messages)
+    fn = find_def(tree.body, '_compile_path_pattern')
+    consts = []
+
+    class V(ast.NodeVisitor):
+        def visit_Raise(self, n):
+            pass
+
+        def visit_Assign(self, n):
+            if any(isinstance(t, ast.Name) and t.id == '_tmpl' for t in n.targets):
+                return
+            self.generic_visit(n)
+
+        def visit_Constant(self, n):
+            if isinstance(n.value, str):
+                consts.append(n.value)
+    for st in fn.body:
+        if isinstance(st, ast.Expr) and isinstance(st.value, ast.Constant):
+            continue
+        V().visit(st)
+    out.append('Definition COMPILE_CONSTS : list string := %s.\n' % names_list(consts))
+    return ''.join(out)
+
+
 def gen_normpath(repo):
     from strfun import StrFun
     rel = 'clastic/route.py'
@@ -171,6 +295,7 @@ def gen_normpath(repo):
 
 
 GENERATORS = {
+    'RouteLex.v': gen_route_lex,
     'NormPathGen.v': gen_normpath,
     'Tables.v': gen_tables,
     'ReservoirGen.v': gen_reservoir,
